@@ -97,3 +97,28 @@ CORPUS += [
     V("C19", "eq-dataset-files-generator-to-list", _BASE, "                    return [pjoin(data_dir, _f) for _f in f]", "                    return list(pjoin(data_dir, _f) for _f in f)", None),
     V("C19", "fjsp-files-listed-unsorted", _FG, "            for f in sorted(os.listdir(path))", "            for f in os.listdir(path)", "C19.h"),
 ]
+
+_MCE = G_ + "mcp/env.py"
+CORPUS += [
+    V("C08", "mcp-membership-shows-the-chosen-sets", _MCE, "remaining_sets = ~chosen", "remaining_sets = chosen", "C08.d"),
+    V("C08", "mcp-weights-grow-with-coverage", _MCE, "remaining_items = 1.0 - covered_items", "remaining_items = 1.0 + covered_items", "C08.d"),
+    V("C08", "mcp-covered-indicator-always-on", _MCE, "(chosen_items > 0).float()  # (batch_size, n_items)", "(chosen_items >= 0).float()  # (batch_size, n_items)", "C08.d"),
+    V("C08", "eq-mcp-covered-indicator-count-at-least-one", _MCE, "(chosen_items > 0).float()  # (batch_size, n_items)", "(chosen_items >= 1).float()  # (batch_size, n_items)", None),
+]
+
+_MTS = R + "mtsp/env.py"
+CORPUS += [
+    V("C01", "mtsp-agent-counter-runs-backwards", _MTS, 'td["agent_idx"] + (current_node == 0).long()', 'td["agent_idx"] - (current_node == 0).long()', "C01.s"),
+    V("C01", "mtsp-agent-counter-counts-customers", _MTS, 'td["agent_idx"] + (current_node == 0).long()', 'td["agent_idx"] + (current_node != 0).long()', "C01.s"),
+    V("C01", "eq-mtsp-agent-counter-commuted", _MTS, 'td["agent_idx"] + (current_node == 0).long()', '(0 == current_node).long() + td["agent_idx"]', None),
+    V("C05", "mtsp-depot-only-from-the-depot", _MTS, 'current_node != 0, td["agent_idx"] < td["num_agents"] - 1', 'current_node == 0, td["agent_idx"] < td["num_agents"] - 1', "C05.j"),
+    V("C05", "mtsp-depot-closed-when-done", _MTS, "available[..., 0] = torch.logical_or(done, available[..., 0])", "available[..., 0] = torch.logical_and(done, available[..., 0])", "C05.j"),
+    V("C05", "eq-mtsp-depot-column-mirrored", _MTS, 'current_node != 0, td["agent_idx"] < td["num_agents"] - 1', '0 != current_node, td["num_agents"] - 1 > td["agent_idx"]', None),
+]
+
+_PCT = R + "pctsp/env.py"
+CORPUS += [
+    V("C06", "pctsp-checker-count-adds-the-depot-entries", _PCT, "sorted_actions.size(-1) - (sorted_actions == 0).int().sum(-1)", "sorted_actions.size(-1) + (sorted_actions == 0).int().sum(-1)", "C06.n"),
+    V("C06", "pctsp-checker-count-subtracts-the-customers", _PCT, "sorted_actions.size(-1) - (sorted_actions == 0).int().sum(-1)", "sorted_actions.size(-1) - (sorted_actions != 0).int().sum(-1)", "C06.n"),
+    V("C06", "eq-pctsp-checker-count-from-unsorted-actions", _PCT, "sorted_actions.size(-1) - (sorted_actions == 0).int().sum(-1)", "(actions.shape[-1] - (actions == 0).sum(-1))", None),
+]
